@@ -130,6 +130,10 @@ class Spec:
         except Exception as e:  # noqa: BLE001
             got_exc = type(e).__name__
         if got_exc != exp_exc:
+            if kind == "set" and exp_exc == "IndexError" and got_exc is None:
+                # one call site (no bounds check in __setitem__), one signature
+                return [("set/out-of-range|no-IndexError",
+                         {"op": op, "list_before_len": n, "expected_exception": exp_exc, "got_exception": got_exc})]
             return [("%s|step-exception" % "/".join(cls),
                      {"op": op, "list_before_len": n, "expected_exception": exp_exc, "got_exception": got_exc})]
         return []
